@@ -587,6 +587,8 @@ def apply_mut(sl, m):
         while len(el) <= m[1]:
             el.append('')
         el[m[1]] = m[2]
+    elif kind == 'st_trunc':  # ('st_trunc', n): the ST keeps its first n elements (id included)
+        del sl[0]['el'][m[1]:]
 
 
 # ----------------------------------------------------------------------------- fault catalogue
@@ -624,9 +626,9 @@ def date_targets(base):
 
 SET_FAULTS = ['ele_plain', 'ele_srcsub', 'ele_TERM', 'ele_ELE', 'ele_SUB', 'ele_REP', 'ele_MIX', 'ele_date', 'ele_missing', 'ele_two_same_seg', 'ele_two_segs',
               'ele_extra', 'ele_extra_special', 'seg_unknown', 'seg_unknown_first', 'seg_unknown_last', 'seg_dup_first', 'seg_missing_first',
-              'seg_trail', 'seg_blank', 'seg_unknown_blank', 'st_trail', 'st_extra_ele', 'st02_long', 'st_blank', 'st_dup_id', 'se_cnt', 'se_id',
+              'seg_trail', 'seg_blank', 'seg_unknown_blank', 'st_trail', 'st_extra_ele', 'st02_long', 'st02_absent', 'st02_sep', 'segid_sep', 'st_blank', 'st_dup_id', 'se_cnt', 'se_id',
               'se_omit', 'se_trail', 'se_blank', 'se_extra_ele', 'seg_two_errors']
-GROUP_FAULTS = ['gs_blank', 'gs_trail', 'gs_dup_id', 'gs06_long', 'gs08_bad', 'ge_cnt', 'ge_id', 'ge_omit', 'ge_trail', 'ge_blank', 'ge_extra_ele',
+GROUP_FAULTS = ['gs_blank', 'gs_trail', 'gs_dup_id', 'gs06_long', 'gs06_sep', 'gs08_bad', 'ge_cnt', 'ge_id', 'ge_omit', 'ge_trail', 'ge_blank', 'ge_extra_ele',
                 'stray_before_st', 'stray_between_sets', 'stray_after_ge', 'stray_before_ge']
 ISA_FAULTS = ['isa_dup_id', 'iea_cnt', 'iea_id', 'iea_omit', 'iea_trail', 'ta1', 'cut1', 'cut2', 'cut3', 'cut_mid']
 CRASH_FAULTS = ['ge_nonnum']
@@ -728,6 +730,26 @@ def apply_fault(spec, f, ii, gi, si, terms_key, rnd):
         mut.append(('st_ele', 4 if ver == '5010' else 3, Raw('X')))
     elif f == 'st02_long':
         s['id'] = '1234567890'
+    elif f == 'st02_absent':
+        # the set control number is not there at all: the acknowledgement still has to name the set and stay complete
+        if ver == '5010':
+            mut.append(('st_ele', 2, Raw('')))
+        else:
+            mut.append(('st_trunc', 2))
+    elif f in ('st02_sep', 'segid_sep', 'gs06_sep'):
+        # values the acknowledgement echoes OUTSIDE AK404/IK404 - control numbers, segment identifiers - holding separators of the
+        # acknowledgement itself (possible when the source uses other ones)
+        t = TERMS[terms_key]
+        seps = [c for c in ('*', ':', '~') if c not in t]
+        if not seps:
+            return False
+        c = rnd.choice(seps)
+        if f == 'st02_sep':
+            s['id'] = Raw('0' + c + '01')
+        elif f == 'gs06_sep':
+            g['id'] = Raw('1' + c + '2')
+        else:
+            mut.append(('ins', rnd.randint(2, nbody), [Raw('Z' + c + 'Z'), '1']))
     elif f == 'st_blank':
         mut.append(('blank', 0))
     elif f == 'st_dup_id':
